@@ -1,108 +1,158 @@
-"""Symbolic evaluation of ExtInstSetTracker::track / resolve (shared by C07 and C04)."""
+"""Evaluation of ExtInstSetTracker::{new, track, have, resolve} on a tracker value built by new() (shared by C07 and C04).
+
+track() is evaluated on instruction values (opcode, result id present or not, operand list); what the tracker then knows is read
+off through the code's own have() and resolve(): `records` is the list of (id, table) pairs for which have(id) holds and
+resolve(id, OPCODE) looks OPCODE up in that table.  histories(): every sequence of up to three track() calls over an alphabet with
+two ids, the two known set names (one of them imported under both ids), an unknown set name, an import without result id and an
+instruction that is not an import."""
+import itertools
+import re
+
 from ..core import Anchor
-from ..symeval import SymEval, Hooks, NONE, Panic as SPanic
+from ..symeval import NONE, Panic as SPanic
+from . import progx
 
 TRK = "rspirv::binary::tracker"
+OPC = ("sym", "OPCODE")
+IDS = (7, 9, 11)
+SETS = {"glsl": ("GLSL.std.450", "GlslStd450InstructionTable", "GlslStd450"), "opencl": ("OpenCL.std", "OpenCLStd100InstructionTable", "OpenCLStd100")}
 
 
-class H(Hooks):
-    def __init__(self, ctx, opcode, rid, operands, known=None):
-        from ..model import predeval
-        self.pe = predeval(ctx)
-        self.opcode, self.rid, self.operands, self.known = opcode, rid, operands, known
-        self.inserts = []
+def _aliases(ctx):
+    out = {}
+    for i in ctx.rspirv.items(TRK, "use"):
+        for real, alias in re.findall(r"(\w+)\s+as\s+(\w+)", i["tree"]):
+            out[alias] = real
+    return out
 
-    def path(self, p):
-        if p == "self":
-            return ("self",)
-        o = self.pe.resolve_op(p)
-        if o is not None:
-            return ("enum", "Op::" + o, [])
-        return NotImplemented
 
-    def field(self, base, name, e):
-        if base == ("inst",):
-            if name == "result_id":
-                return ("some", ("sym", "RID")) if self.rid else NONE
-            if name == "operands":
-                return ("list", self.operands)
-            if name == "class":
-                return ("class",)
-        if base == ("class",) and name == "opcode":
-            return ("enum", "Op::" + self.opcode, [])
-        if base == ("self",) and name == "sets":
-            return ("setsmap",)
-        return NotImplemented
-
-    def index(self, base, idx, e):
-        if isinstance(base, tuple) and base[0] == "list" and isinstance(idx, int):
-            if idx >= len(base[1]):
-                raise SPanic("operands[%d] out of range" % idx)
-            return base[1][idx]
-        return NotImplemented
-
-    def binary(self, op, a, b, e):
-        if op in ("==", "!=") and isinstance(a, tuple) and isinstance(b, tuple) and a[0] == "enum" and b[0] == "enum":
-            return (a[1].split("::")[-1] == b[1].split("::")[-1] and a[2] == b[2]) == (op == "==")
-        return NotImplemented
+class H(progx.OpHooks):
+    def __init__(self, ctx):
+        progx.OpHooks.__init__(self, ctx)
+        self.self_ty = "ExtInstSetTracker"
+        self.alias = _aliases(ctx)
 
     def call(self, p, args, e):
-        if p.endswith("::lookup_opcode") and len(args) == 1:
-            return ("lookup", p.split("::")[-2], args[0])
-        return NotImplemented
+        segs = p.split("::")
+        if segs[-1] == "lookup_opcode" and len(args) == 1 and len(segs) >= 2:
+            return ("lookup", self.alias.get(segs[-2], segs[-2]), args[0])       # which table is consulted, with which number
+        return progx.OpHooks.call(self, p, args, e)
 
-    def mcall(self, recv, m, args, e, ev):
-        if recv == ("setsmap",):
-            if m == "insert" and len(args) == 2:
-                self.inserts.append((args[0], args[1][1].split("::")[-1] if isinstance(args[1], tuple) and args[1][0] == "enum" else args[1]))
-                return NONE
-            if m == "get" and len(args) == 1:
-                return ("some", ("enum", "ExtInstSet::" + self.known, [])) if self.known else NONE
-            if m == "contains_key" and len(args) == 1:
-                return bool(self.known)
-        if isinstance(recv, tuple) and recv[0] == "list":
-            if m == "first":
-                return ("some", recv[1][0]) if recv[1] else NONE
-            if m == "is_empty":
-                return not recv[1]
-            if m == "len":
-                return len(recv[1])
-        return NotImplemented
 
-    def match_path(self, v, path):
-        o = self.pe.resolve_op(path)
-        if o is not None and isinstance(v, tuple) and v[0] == "enum":
-            return v[1] == "Op::" + o
-        return NotImplemented
+def S(s):
+    return ("enum", "Operand::LiteralString", [("str", s)])
+
+
+def instruction(opcode, rid, operands):
+    return ("struct", "Instruction", {"class": ("struct", "Instruction", {"opcode": ("enum", "Op::" + opcode, []), "opname": ("str", opcode), "capabilities": ("list", []),
+                                                                          "extensions": ("list", []), "operands": ("list", [])}),
+                                      "result_type": NONE, "result_id": ("some", rid) if rid is not None else NONE, "operands": ("list", list(operands))})
+
+
+def _fn(ctx, name):
+    return ctx.rspirv.fn(TRK, name, "ExtInstSetTracker")
+
+
+def _run(ctx, name, env):
+    f = _fn(ctx, name)
+    ps = [q[0] for q in f["sig"]["params"] if q[0] != "self"]
+    full = {"self": env[0]} if env[0] is not None else {}
+    full.update(dict(zip(ps, env[1:])))
+    return progx.make(H(ctx), "ExtInstSetTracker::" + name).run(f, full)
+
+
+def fresh(ctx):
+    t = _run(ctx, "new", (None,))
+    if not (isinstance(t, tuple) and t and t[0] == "struct"):
+        raise Anchor("ExtInstSetTracker::new() is not a struct value: %r" % (t,))
+    return t
+
+
+def records(ctx, t):
+    """what the tracker knows, through have() and resolve(): [(id, real table name)]; Anchor if the two disagree or resolve does
+    something else than looking the number up in one table"""
+    out = []
+    for i in IDS:
+        hv = _run(ctx, "have", (t, i))
+        rs = _run(ctx, "resolve", (t, i, OPC))
+        if not isinstance(hv, bool):
+            raise Anchor("have(%d) is undecided: %r" % (i, hv))
+        if rs == NONE:
+            tab = None
+        elif isinstance(rs, tuple) and len(rs) == 3 and rs[0] == "lookup" and rs[2] == OPC:
+            tab = rs[1]
+        else:
+            raise Anchor("resolve(%d, OPCODE) is neither None nor a lookup of OPCODE in a table: %r" % (i, rs))
+        if hv != (tab is not None):
+            out.append((i, "have=%s but resolve consults %s" % (hv, tab)))
+        elif hv:
+            out.append((i, tab))
+    return out
 
 
 def track_cases():
-    S = lambda s: ("enum", "Operand::LiteralString", [("str", s)])
     out = []
     for opcode in ("ExtInstImport", "Extension", "Nop"):
         for rid in (True, False):
             for name, ops in (("none", []), ("glsl", [S("GLSL.std.450")]), ("opencl", [S("OpenCL.std")]), ("other", [S("NonSemantic.DebugPrintf")]),
-                              ("idref", [("enum", "Operand::IdRef", [("sym", "X")])])):
+                              ("idref", [("enum", "Operand::IdRef", [("id", "X")])])):
                 want = []
-                if opcode == "ExtInstImport" and rid and name in ("glsl", "opencl"):
-                    want = [(("sym", "RID"), "GlslStd450" if name == "glsl" else "OpenCLStd100")]
+                if opcode == "ExtInstImport" and rid and name in SETS:
+                    want = [(IDS[0], SETS[name][1])]
                 out.append(("%s rid=%s operands=%s" % (opcode, rid, name), opcode, rid, ops, want))
     return out
 
 
 def track_eval(ctx, opcode, rid, operands):
-    f = ctx.rspirv.fn(TRK, "track", "ExtInstSetTracker")
-    h = H(ctx, opcode, rid, operands)
-    ev = SymEval(h, "ExtInstSetTracker::track")
+    t = fresh(ctx)
     try:
-        ev.run(f, {f["sig"]["params"][1][0]: ("inst",)})
+        _run(ctx, "track", (t, instruction(opcode, IDS[0] if rid else None, operands)))
     except SPanic as x:
         return ("panic", str(x))
-    return ("ok", h.inserts)
+    return ("ok", records(ctx, t))
+
+
+ALPHABET = [("import %d glsl", "ExtInstImport", 7, "glsl"), ("import %d glsl", "ExtInstImport", 9, "glsl"), ("import %d opencl", "ExtInstImport", 9, "opencl"),
+            ("import %d opencl", "ExtInstImport", 11, "opencl"), ("import %d other", "ExtInstImport", 11, "other"), ("import <no id> glsl", "ExtInstImport", None, "glsl"),
+            ("extension %d glsl", "Extension", 11, "glsl")]
+
+
+def histories(ctx):
+    """[(history text, problem or None)] for every sequence of up to three track() calls that does not import under one id twice"""
+    def build():
+        out = []
+        for ln in (1, 2, 3):
+            for hist in itertools.product(ALPHABET, repeat=ln):
+                imp = [a[2] for a in hist if a[1] == "ExtInstImport" and a[2] is not None]
+                if len(imp) != len(set(imp)):
+                    continue        # the same id declared twice: not a module the property speaks of
+                text = "; ".join((a[0] % a[2]) if "%d" in a[0] else a[0] for a in hist)
+                model = {}
+                pb = None
+                try:
+                    t = fresh(ctx)
+                    for label, opcode, rid, setn in hist:
+                        ops = [S(SETS[setn][0] if setn in SETS else "NonSemantic.DebugPrintf")]
+                        _run(ctx, "track", (t, instruction(opcode, rid, ops)))
+                        if opcode == "ExtInstImport" and rid is not None and setn in SETS:
+                            model[rid] = SETS[setn][1]
+                    got = records(ctx, t)
+                    want = sorted(model.items())
+                    if sorted(got) != want:
+                        pb = "the tracker then knows %s, expected %s" % (sorted(got), want)
+                except SPanic as x:
+                    pb = "panics: %s" % x
+                except Anchor as ex:
+                    pb = "not analysable: %s" % ex
+                out.append((text, pb))
+        return out
+    return ctx.memo("extx_histories", build)
 
 
 def resolve_eval(ctx, known):
-    f = ctx.rspirv.fn(TRK, "resolve", "ExtInstSetTracker")
-    h = H(ctx, "Nop", False, [], known)
-    ev = SymEval(h, "ExtInstSetTracker::resolve")
-    return ev.run(f, {f["sig"]["params"][1][0]: ("sym", "SET"), f["sig"]["params"][2][0]: ("sym", "OPCODE")})
+    """resolve(id, OPCODE) on a tracker that has seen an import of the set `known` (GlslStd450 / OpenCLStd100 / None) under that id"""
+    t = fresh(ctx)
+    for k, (name, table, tag) in SETS.items():
+        if tag == known:
+            _run(ctx, "track", (t, instruction("ExtInstImport", IDS[0], [S(name)])))
+    return _run(ctx, "resolve", (t, IDS[0], OPC))
